@@ -462,6 +462,9 @@ def _js_type(t, openapi, refprefix):
             ft = _js_nullable(f["t"], openapi, refprefix) if f["null"] else _js_type(f["t"], openapi, refprefix)
             if f["def"]["j"] != "none":
                 ft = dict(ft)
+                if "$ref" in ft:
+                    # draft-07 and OpenAPI 3.0 ignore the siblings of $ref: the standard spelling wraps the reference
+                    ft = {"allOf": [ft]}
                 ft["default"] = jv_to_py(f["def"])
             props[f["n"]] = ft
             if f["req"]:
@@ -560,7 +563,13 @@ class _Cue:
                 if f["null"]:
                     ft = "%s | null" % self.wrap(ft)
                 if f["def"]["j"] != "none":
-                    ft = "%s | *%s" % (self.wrap(ft), self.lit(jv_to_py(f["def"])))
+                    # a union of scalars keeps the idiomatic flat spelling `string | int64 | *"x"` (same CUE value)
+                    base = ft if (f["t"]["k"] == "union" and not f["null"]) else self.wrap(ft)
+                    if f["t"]["k"] == "ref" and not f["null"] and getattr(self, "defs", {}).get(f["t"]["name"], {}).get("k") == "enum":
+                        # a named enum keeps its name only in this (equivalent) spelling: `#E | *"b"` is read as a plain string
+                        ft = "%s & (*%s | string)" % (ft, self.lit(jv_to_py(f["def"])))
+                    else:
+                        ft = "%s | *%s" % (base, self.lit(jv_to_py(f["def"])))
                 lines.append("%s%s: %s" % (f["n"], "" if f["req"] else "?", ft))
             return "{\n" + "\n".join("\t" + ln.replace("\n", "\n\t") for ln in lines) + "\n}"
         raise NotExpressible("unknown kind " + k)
@@ -572,6 +581,7 @@ class _Cue:
 
 def render_cue(schema, package):
     c = _Cue()
+    c.defs = defs_of(schema)
     bodies = ["#%s: %s" % (d["name"], c.ty(d["t"])) for d in schema["defs"]]
     head = "package %s\n\n" % package
     if c.imports:
@@ -884,6 +894,7 @@ def build(ctx, batch):
     reg.append("}")
     ctor.append("}")
     open(os.path.join(drv, "registry_gen.go"), "w").write("\n".join(reg + [""] + ctor) + "\n")
+    _object_constructors(batch, drv)
     batch.driver = os.path.join(gen, "drv")
     rc, diags, other = _go_build(ctx, gen, ["./driver"], out=batch.driver)
     if rc != 0:
@@ -891,6 +902,23 @@ def build(ctx, batch):
         raise core.Inconclusive("the generic driver does not build")
     batch.timing["build_s"] = round(time.time() - t0, 2)
     return batch
+
+
+def _object_constructors(batch, drv):
+    """driver/objctors_gen.go: every generated `func New<Obj>() *<Obj>` of every executable package (driver op
+    `newobj`, C10: "for every object"); batch.units[pkg]["constructors"] lists them."""
+    imports, out = [], ["var objectConstructors = map[string]func() any{"]
+    for p in sorted(u["pkg"] for u in batch.units.values() if u["status"] == "ok"):
+        src = open(os.path.join(batch.gen_dir, "go", p, "types_gen.go")).read()
+        names = [m.group(1) for m in re.finditer(r"^func New(\w+)\(\) \*(\w+) ", src, re.M) if m.group(1) == m.group(2)]
+        batch.units[p]["constructors"] = names
+        if names:
+            imports.append('\t"%s/go/%s"' % (MODULE, p))
+        for n in names:
+            out.append('\t"%s.%s": func() any { return %s.New%s() },' % (p, n, p, n))
+    out.append("}")
+    head = ["package main", ""] + (["import ("] + imports + [")", ""] if imports else [])
+    open(os.path.join(drv, "objctors_gen.go"), "w").write("\n".join(head + out) + "\n")
 
 
 def run_driver(ctx, batch, commands, name="cmds"):
